@@ -16,7 +16,9 @@ RULE = ('schemas over {int, Optional[int], float, bool, str, SequenceID, List[in
         '3-way), sort_by, replace, add_fields, from_entry_tuples(tolist), from_dict(todict), from_data_frame(topandas), '
         'single index, iteration, add_fields on the other operand}; plus sort_by on 17..40-row tables with few distinct keys '
         '(every sortable key kind, directly and after concatenation) and pairs of add_fields with one field name and two '
-        'declared types on two tables of one class; non-trivial = at least 2 columns of different representation and an operand with '
+        'declared types on two tables of one class; operations applied directly to freshly indexed tables; int columns given '
+        'as every integer dtype and as python ints at the 64-bit limits; EVERY program is run twice (intermediate tables '
+        'observed / never touched) and both runs must agree with the specification; non-trivial = at least 2 columns of different representation and an operand with '
         '>= 1 row and a program with >= 1 table-producing operation')
 EXHAUSTIVE = {'quick': False, 'thorough': False}
 TIE = ('translator+correspondence: translate/gen_c19.py regenerates the decision rules of bnpdataclass.py and '
@@ -1046,7 +1048,34 @@ def _deviations(case, o):
                 sch = [list(f) for f in case['schema']] + [[op[1], op[2]]]
     if len(o['steps']) != len(case['prog']):
         dev.append((-1, None, None, None))
+    # the second run, in which no intermediate table is looked at, must end with the same table and raise at the same steps
+    last = o['t0']
+    for st in o['steps']:
+        if 'rows' in st:
+            last = st
+    lz = o.get('lazy')
+    if not isinstance(lz, dict) or lz.get('rows') != last.get('rows'):
+        dev.append((-2, ['lazy-final'], lz, None))
+    twin_errs = [('err' in st) for st in o['steps']]
+    lazy_errs = list(o.get('lazy_errs', []))
+    if len(lazy_errs) != len(twin_errs):
+        dev.append((-2, ['lazy-errors'], None, None))
+    else:
+        ragged = any(_has_ragged(kk) for _, kk in case['schema'])
+        for i, (a, b) in enumerate(zip(twin_errs, lazy_errs)):
+            if a != b:
+                op = case['prog'][i]
+                tag = ('C19-single-index-of-unmaterialised-ragged-view'
+                       if op[0] == 'index' and b and not a and ragged
+                       and any(p[0] in ('take', 'mask', 'slice', 'sort') for p in case['prog'][:i]) else None)
+                dev.append((i, op, dict(err='raised only when the table was not looked at before'), tag))
     return dev
+
+
+def _has_ragged(k):
+    if _is_nested(k):
+        return any(_has_ragged(sk) for _, sk in k[1])
+    return k in ('str', 'dna', 'list')
 
 
 def _sort_key(c):
@@ -1107,14 +1136,7 @@ def _only_rounding(want, got):
 def _operands_intact(o):
     def r(ob):
         return ob.get('rows') if isinstance(ob, dict) else None
-    # ... and the unobserved second run ended with the same table and raised at the same steps
-    last = o.get('t0')
-    for st in o.get('steps', []):
-        if isinstance(st, dict) and 'rows' in st:
-            last = st
-    same_lazy = r(last) == r(o.get('lazy')) and [('err' in st) for st in o.get('steps', [])] == list(o.get('lazy_errs', []))
-    return (o.get('unchanged') and r(o.get('t0')) == r(o['after'][0]) and r(o.get('t1')) == r(o['after'][1])
-            and same_lazy)
+    return o.get('unchanged') and r(o.get('t0')) == r(o['after'][0]) and r(o.get('t1')) == r(o['after'][1])
 
 
 def finding(case, o):
